@@ -435,6 +435,18 @@ class Ex(object):
         if not isinstance(p, Ptr):
             raise ExecError('store through non-pointer %r in %s' % (p, self.cur_fn))
         r = self.check_live(p, 'store')
+        if isinstance(p.off, tuple) and p.off[0] == 'cstr-end':
+            # buf[strlen(s)] = 0 right after s was copied into buf without its terminator: the buffer now holds exactly s
+            _, base, sterm = p.off
+            sv = self.st.side.get((p.rid, base))
+            cur = sv.cstr_value() if sv is not None and hasattr(sv, 'cstr_value') else None
+            if size == 1 and v == 0 and isinstance(cur, T) and cur.op == 'uf' and cur.p == 'unterminated-prefix-over' and cur.a[0] is sterm:
+                nv = sv.clone()
+                nv.v = sterm
+                self.st.side_set((p.rid, base), nv)
+                self.st.writes.append((p.rid, base, 1))
+                return
+            raise ExecError('store at a symbolic string offset in %s' % self.cur_fn)
         if not isinstance(p.off, int):
             raise ExecError('symbolic offset store')
         if r.kind != 'ext' and r.size and (p.off < 0 or p.off + size > r.size):
@@ -823,6 +835,9 @@ class Ex(object):
                         if i.op == 'undef':
                             st.event('uninit-use', 'index', self.cur_fn)
                             raise ExecError('uninitialised GEP index in %s' % self.cur_fn)
+                        if i.op == 'uf' and i.p == 'strlen' and scale == 1 and isinstance(b, Ptr) and isinstance(b.off, int):
+                            # &buf[strlen(s)]: the position just behind a string copied without its terminator (see store)
+                            return Ptr(b.rid, ('cstr-end', b.off + off, i.a[0]))
                         # symbolic index into a small array: case split over the elements of the region; anything else is out of range
                         reg = st.regions.get(b.rid) if isinstance(b, Ptr) else None
                         n_el = (reg.size - b.off - off) // scale if reg is not None and reg.size and scale else 0
